@@ -32,9 +32,12 @@ def mc_cfg(maxp, maxq, invs, alpha="full"):
 
 def model_check(res, pid, tier, single=SINGLE_INV, pair=PAIR_INV):
     from concurrent.futures import ThreadPoolExecutor
-    runs = [("single profile <=3 ballots, 8 contents x 3 weights", mc_cfg(3, 0, single), "mc_single", 8),
-            ("two profiles <=2 / <=2 ballots, 8 contents x 3 weights", mc_cfg(2, 2, pair), "mc_pair", 16)]
-    if tier != "quick":
+    runs = [("single profile <=3 ballots, 8 contents x 3 weights", mc_cfg(3, 0, single), "mc_single", 8)]
+    if tier == "quick":
+        runs += [("two profiles <=2 / <=2 ballots, 5 contents x 3 weights", mc_cfg(2, 2, pair, "small"), "mc_pair22s", 8),
+                 ("two profiles <=2 / <=1 ballots, 8 contents x 3 weights", mc_cfg(2, 1, pair), "mc_pair21", 8)]
+    else:
+        runs += [("two profiles <=2 / <=2 ballots, 8 contents x 3 weights", mc_cfg(2, 2, pair), "mc_pair", 16)]
         # (<=3 / <=2 over all 8 contents is 8.7 million states: 2.5 min on an idle 16-core machine, 22 min measured on a machine with load
         #  average 250; the two runs below cover the same shapes in 1.2 million states)
         runs += [("two profiles <=3 / <=2 ballots, 5 contents x 3 weights", mc_cfg(3, 2, pair, "small"), "mc_pair32", 16),
@@ -293,8 +296,8 @@ def run(tier, seed, replay=None):
     res = Result(PID, tier, seed)
     scratch(PID)
     res.rule = ("role 1: MC_ProfileADT -- every profile *sequence* of <=3 ballots over 8 contents (ranked, scored, both with the same ranking, neither, "
-                "tie, short, repeated candidate) x weights {1,2,1/2}, and every pair of such sequences (<=2 and <=2 ballots; thorough also <=3/<=1 and, over "
-                "5 contents, <=3/<=2): condense distinct / "
+                "tie, short, repeated candidate) x weights {1,2,1/2}, and every pair of such sequences (quick: <=2/<=2 over 5 contents and <=2/<=1 over 8; "
+                "thorough: <=2/<=2 and <=3/<=1 over 8 contents, <=3/<=2 over 5): condense distinct / "
                 "conserving / idempotent / independent of order, == iff same bag, + adds bags, removal conserves weight per image, tie expansion "
                 "preserves first-place, Borda and pairwise totals; three negative controls must be violated.  role 2: recorded operations of the "
                 "real code (Ballot(...) with int / Fraction / float weights and scores p/q, attribute assignment and deletion on ballots and "
